@@ -93,7 +93,7 @@ def gen_fk(rng, table, targets, used_names):
     if not targets:
         return None
     ref = rng.choice(targets)
-    k = min(rng.choice([1, 1, 1, 2]), len(table["cols"]), len(ref["cols"]))
+    k = min(rng.choice([1, 1, 2, 2, 3]), len(table["cols"]), len(ref["cols"]))
     cols = rng.sample([c["name"] for c in table["cols"]], k)
     refcols = rng.sample([c["name"] for c in ref["cols"]], k)
     sig = (tuple(cols), ref["name"], tuple(refcols))
@@ -239,14 +239,22 @@ def candidate_mutations(rng, schema, odd=False):
         if rng.random() < 0.5:
             newcols, newu = ix1["cols"], not ix1["unique"]
         else:
-            newcols = gen_index(rng, t0, set(used))["cols"]
             newu = ix1["unique"]
+            r = rng.random()
+            alt = [c["name"] for c in t0["cols"] if c["name"] not in ix1["cols"]]
+            if r < 0.35 and len(ix1["cols"]) >= 2:
+                newcols = list(reversed(ix1["cols"]))            # same columns, other order
+            elif r < 0.7 and alt:
+                newcols = ix1["cols"][:-1] + [rng.choice(alt)]   # last column replaced
+            else:
+                newcols = gen_index(rng, t0, set(used))["cols"]
 
         def chix(s):
             i = next(i for i in tbl(s, tn)["ixs"] if i["name"] == ix1["name"])
             i["cols"], i["unique"] = newcols, newu
 
-        out.append(({"m": "changeIndex", "t": tn, "n": ix1["name"], "cols": newcols, "unique": newu}, mutated(chix)))
+        if (newcols, newu) != (ix1["cols"], ix1["unique"]):
+            out.append(({"m": "changeIndex", "t": tn, "n": ix1["name"], "cols": newcols, "unique": newu}, mutated(chix)))
     # uniques
     u = gen_unique(rng, t0, set(used))
     if u:
@@ -266,6 +274,30 @@ def candidate_mutations(rng, schema, odd=False):
     # fks
     idx = schema["tables"].index(t0)
     f = gen_fk(rng, t0, schema["tables"][:idx], set(used))
+    if t0["fks"] and rng.random() < 0.6:
+        # near miss: an existing key with one referred (or one local) column replaced
+        f0 = rng.choice(t0["fks"])
+        ref = next((t for t in schema["tables"] if t["name"] == f0["reftable"]), None)
+        if ref is not None:
+            v = copy.deepcopy(f0)
+            v["name"] = _fresh(rng, [], set(used), "fk_%s_%s_v" % (tn, ref["name"]))
+            r = rng.random()
+            if r < 0.5:
+                alt = [c["name"] for c in ref["cols"] if c["name"] not in f0["refcols"]]
+                if alt:
+                    v["refcols"] = f0["refcols"][:-1] + [rng.choice(alt)]
+            elif r < 0.8:
+                alt = [c["name"] for c in t0["cols"] if c["name"] not in f0["cols"]]
+                if alt:
+                    v["cols"] = f0["cols"][:-1] + [rng.choice(alt)]
+            else:
+                # same columns, another ON DELETE / ON UPDATE action
+                k = rng.choice(["ondelete", "onupdate"])
+                v[k] = rng.choice([a for a in ("CASCADE", "SET NULL", "RESTRICT") if a != f0.get(k)])
+            act = lambda a: None if a is None or a.upper() == "NO ACTION" else a.upper()
+            sig = lambda x: (tuple(x["cols"]), x["reftable"], tuple(x["refcols"]), act(x.get("ondelete")), act(x.get("onupdate")))
+            if all(sig(v) != sig(x) for x in t0["fks"]):
+                f = v
     if f:
         out.append(({"m": "addFK", "t": tn, "n": f["name"], "fk": f}, mutated(lambda s: tbl(s, tn)["fks"].append(f))))
     if t0["fks"]:
